@@ -185,8 +185,11 @@ class Run:
         if self.exhaustive is not None:
             ev["coverage"]["exhaustive"] = self.exhaustive
         ev["coverage"].update(self.extra)
-        os.makedirs(os.path.join(ROOT, "evidence"), exist_ok=True)
-        with open(os.path.join(ROOT, "evidence", self.prop + ".json"), "w") as f:
+        # evidence/<id>.json describes runs on /repo; a run against another tree (VERIF_REPO: seeded changes, replays) keeps its
+        # record apart, under the git-ignored scratch directory
+        evdir = os.path.join(ROOT, "evidence") if os.path.realpath(REPO) == "/repo" else os.path.join(ROOT, "scratch", "evidence_other_tree")
+        os.makedirs(evdir, exist_ok=True)
+        with open(os.path.join(evdir, self.prop + ".json"), "w") as f:
             json.dump(ev, f, indent=1, default=str)
         print("%s %s: %d traces, %d TLC states, %d violation(s), %.1fs" % (self.prop, self.tier, self.traces, self.states, len(self.violations), ev["wall_s"]), flush=True)
         return 1 if self.violations else 0
